@@ -5,6 +5,7 @@ import (
 	"compress/flate"
 	"encoding/base64"
 	"fmt"
+	"strings"
 )
 
 // BuildAssertionStandalone renders (and signs, if asked) one assertion as a
@@ -27,6 +28,32 @@ func BuildAssertionStandalone(a *Assertion, st Style) (string, error) {
 // encrypted assertions are signed standalone and then encrypted; plain
 // assertions are signed in context; the Response is signed last.
 func BuildResponse(rec *Response, st Style) (string, error) {
+	inContext := map[int]string{}
+	for _, a := range rec.Assertions {
+		if a.Enc != nil && a.Enc.InContext {
+			// first the plaintext twin (Response unsigned), from which the in-context octets are cut
+			twin := *rec
+			twin.Sig = nil
+			twin.Assertions = nil
+			for _, b := range rec.Assertions {
+				c := *b
+				c.Enc = nil
+				twin.Assertions = append(twin.Assertions, &c)
+			}
+			t, err := BuildResponse(&twin, st)
+			if err != nil {
+				return "", err
+			}
+			for i, b := range rec.Assertions {
+				if b.Enc != nil && b.Enc.InContext && b.ID != nil {
+					if oct, ok := ElementOctets(t, "Assertion", *b.ID); ok {
+						inContext[i] = oct
+					}
+				}
+			}
+			break
+		}
+	}
 	root, anodes := rec.Node()
 	for i, a := range rec.Assertions {
 		if a.Enc == nil {
@@ -35,6 +62,9 @@ func BuildResponse(rec *Response, st Style) (string, error) {
 		plain, err := BuildAssertionStandalone(a, st)
 		if err != nil {
 			return "", err
+		}
+		if oct, ok := inContext[i]; ok {
+			plain = oct
 		}
 		x, err := EncryptedAssertionXML(a.Enc, []byte(plain), nil, nil)
 		if err != nil {
@@ -100,4 +130,33 @@ func Encode(xml string, level int) string {
 func NewDeflateWriter(w *bytes.Buffer, level int) *flate.Writer {
 	fw, _ := flate.NewWriter(w, level)
 	return fw
+}
+
+// ElementOctets cuts the element with the given local name and ID attribute out of serialised XML, byte for byte
+// (elements of that name are assumed not to nest).
+func ElementOctets(xml, local, id string) (string, bool) {
+	at := strings.Index(xml, ` ID="`+id+`"`)
+	if at < 0 {
+		at = strings.Index(xml, ` ID='`+id+`'`)
+	}
+	if at < 0 {
+		return "", false
+	}
+	lt := strings.LastIndex(xml[:at], "<")
+	if lt < 0 {
+		return "", false
+	}
+	name := xml[lt+1 : lt+1+strings.IndexAny(xml[lt+1:], " \t\r\n>/")]
+	if name != local && !strings.HasSuffix(name, ":"+local) {
+		return "", false
+	}
+	end := strings.Index(xml[at:], "</"+name)
+	if end < 0 {
+		return "", false
+	}
+	gt := strings.Index(xml[at+end:], ">")
+	if gt < 0 {
+		return "", false
+	}
+	return xml[lt : at+end+gt+1], true
 }
